@@ -65,6 +65,8 @@ func mergeFilters(t *rapid.T) []simrt.FilterSpec {
 		{{Since: i64(3)}},
 		{{Limit: i64(0)}},
 		{{Until: i64(4), Limit: i64(3)}},
+		{{Tags: map[string][]string{"t": {"x", "y"}, "p": {ref.Authors[0].Pubkey}}}},
+		{{Tags: map[string][]string{"t": {"x"}}, Limit: i64(2)}},
 	}
 	return fam[rapid.IntRange(0, len(fam)-1).Draw(t, "filters")]
 }
@@ -76,6 +78,10 @@ func (mergeEngine) Gen(t *rapid.T, tier string) any {
 		c.Events = append(c.Events, simrt.EvSpec{
 			Author: rapid.IntRange(0, 1).Draw(t, "author"), Kind: rapid.SampledFrom([]int64{1, 1, 7}).Draw(t, "kind"),
 			CreatedAt: int64(rapid.IntRange(0, 6).Draw(t, "created_at")), Content: fmt.Sprintf("m%d", i)})
+		if tg := rapid.IntRange(0, 5).Draw(t, "tags"); tg > 0 {
+			a0 := ref.Authors[0].Pubkey
+			c.Events[i].Tags = [][][]string{{{"t", "x"}}, {{"p", a0}}, {{"t", "x"}, {"t", "y"}}, {{"t", "y"}, {"p", a0}}, {{"p", a0}, {"t", "z"}}}[tg-1]
+		}
 	}
 	nch := rapid.IntRange(2, 4).Draw(t, "nchildren")
 	// now and then a wide merge (the property speaks of every number of
@@ -98,7 +104,11 @@ func (mergeEngine) Gen(t *rapid.T, tier string) any {
 	reqN := map[string]int{}  // REQs issued per sub id
 	evUsed := map[int]bool{}
 	for i := 0; i < nops; i++ {
-		switch k := rapid.IntRange(0, 11).Draw(t, "opk"); {
+		k := rapid.IntRange(0, 11).Draw(t, "opk")
+		if c.RepeatID && k >= 7 && k <= 8 && rapid.IntRange(0, 1).Draw(t, "morecount") == 0 {
+			k = 9 // several COUNTs of one id in flight together
+		}
+		switch {
 		case k <= 3: // REQ
 			sub := ""
 			if rapid.IntRange(0, 2).Draw(t, "reuse") == 0 {
